@@ -123,7 +123,7 @@ def harnesses(tier):
     hs = [(Harness(PROP, "merge-pair", h_merge, {}, "heartbeat_merge on two events, all fields symbolic", cross_solver=20), 120)]
     hs.append((Harness(PROP, "merge-pair-float-semantics", C.with_floats(h_merge), {}, "heartbeat_merge on two events with IEEE double semantics for any float arithmetic, durations whole ms < 2^17 in binary range pieces", split_depth=7, fresh_solver=True), 600))
     hs.append((Harness(PROP, "reduce-n2-float-semantics", C.with_floats(h_reduce), dict(n=2), "heartbeat_reduce on 2 events with IEEE double semantics for any float arithmetic, durations whole ms < 2^17 in binary range pieces", split_depth=7, fresh_solver=True), 600))
-    ns = [2, 3] if tier == "quick" else [2, 3, 4, 5]
+    ns = [2, 3] if tier == "quick" else [2, 3, 4, 5, 6, 7]
     for n in ns:
         hs.append((Harness(PROP, "reduce-n%d" % n, h_reduce, dict(n=n), "heartbeat_reduce on %d events vs left fold of the reference rule" % n, split_depth=8, cross_solver=3), 900))
     return hs
@@ -133,7 +133,7 @@ def meta(chk, tier):
     chk.functions = C.source_files("aw_transform/heartbeats.py", "aw_core/models.py")
     chk.functions.append(dict(functions=["aw_transform.heartbeats.heartbeat_merge", "aw_transform.heartbeats.heartbeat_reduce", "aw_core.models.Event.__init__/setters", "aw_core.models._timestamp_parse"]))
     chk.bounds = [
-        "events per list: 2 (pair), %s (reduce)" % ("2..3" if tier == "quick" else "2..5"),
+        "events per list: 2 (pair), %s (reduce)" % ("2..3" if tier == "quick" else "2..7"),
         "timestamps: any multiple of 1 ms in [1970, ~2103] (symbolic integer), any order, ties allowed",
         "durations: any integer microseconds in [-1e13, 1e13] (negative, zero, positive)",
         "pulsetime: any integer microseconds in [0, 1e12] passed as seconds (fractional values included)",
@@ -142,7 +142,7 @@ def meta(chk, tier):
     chk.stubs = ["aw_core.models.int -> sym_int (truncation of exact ratio)", "aw_transform.heartbeats.timedelta -> sym_timedelta (exact: pulsetime seconds == given microseconds; float rounding of pulsetime not modelled)", "logging disabled"]
     chk.assumptions = [
         "timedelta(seconds=pulsetime) is modelled exact (pulsetime is an exact number of microseconds)",
-        "more than %d events per list are outside the claim" % (3 if tier == "quick" else 5),
+        "more than %d events per list are outside the claim" % (3 if tier == "quick" else 7),
         "data compared through one symbolic tag (dict equality is executed by CPython on the shadow)",
     ]
 
